@@ -70,6 +70,46 @@ CHECKS = {
         'world sizes above the bound and cost values outside the alphabets '
         'are not explored.',
         '3/C06'),
+    'C16': (
+        'bounded-exhaustive enumeration of programs (all module trees up to '
+        'a node bound x skip-pattern lists) on the real registration code '
+        'against an independent tree walk',
+        'Every module tree with <=4 (quick) / <=5 (thorough) nodes over 12 '
+        'leaf kinds and 3 container kinds, with shared instances, x 12+ '
+        'skip-pattern lists is passed to the real KFACPreconditioner; the '
+        'registered (qualified name, instance) set must equal an '
+        'independent pre-order walk with re.search, and hook counts are '
+        'checked on every module of the tree.',
+        'trees above the node bound, other module types and other patterns '
+        'are not explored; the GPT-NeoX registration variant is checked '
+        'with DeepSpeed stand-ins.',
+        '3/C16'),
+    'C19': (
+        'explicit-state BFS over scheduler operation histories in lock-step '
+        'with a reference model; exhaustive enumeration of the decay '
+        'schedule domain up to a bound',
+        'For all 64 subsets of scheduled parameters every history up to '
+        'depth 5 (quick) / 6 (thorough) over {step(), step(k), advance the '
+        'preconditioner} is executed on the real LambdaParamScheduler and '
+        'compared (exact float equality) with a dictionary reference after '
+        'every operation; all 7x64 constructor combinations; '
+        'exp_decay_factor_averaging for every k up to 1e4 / 1e6 and 7 caps.',
+        'one parametrised family of factor functions; depth bound.',
+        '3/C19'),
+    'C20': (
+        'explicit-state BFS over call/clear/query histories of the real '
+        'tracing module under an injected clock, in lock-step with a '
+        'reference model',
+        'Every history up to length 5 (quick) / 6 (thorough) over completed '
+        'calls of three traced functions (two sharing a name), raising '
+        'calls and clear_trace is executed on the real kfac.tracing with a '
+        'virtual clock; after every operation all 8 (average, max_history) '
+        'queries, return-value identity, argument pass-through and '
+        'exception identity are compared with a list/dict reference; one '
+        'sync=True program in a simulated 2-rank world.',
+        'max_history=0 excluded (mean of zero samples undefined); durations '
+        'are dyadic so sums are exact.',
+        '3/C20'),
 }
 
 NOT_YET = 'check not built yet (work in progress, see DESIGN.md section 8)'
